@@ -25,9 +25,15 @@ def main():
         # a replay file pins the hash seed it was recorded under
         try:
             path = sys.argv[sys.argv.index('--replay') + 1]
-            hs = core.load_replay(path).get('pythonhashseed')
+            doc = core.load_replay(path)
+            hs = doc.get('pythonhashseed')
             if hs is not None:
                 hashseed = str(hs)
+            # ... and the interpreter configuration (python -O or not)
+            if doc.get('python_optimize'):
+                os.environ['HPLSIM_PYOPT'] = '1'
+            else:
+                os.environ.pop('HPLSIM_PYOPT', None)
         except Exception:
             pass
     core.bootstrap(hashseed)
